@@ -18,7 +18,7 @@ from vf.engine.runner import Broken, Result
 ID = "C09"
 LEVEL = "model_checking"
 RULE = (
-    "ECU models = all directed session-transition graphs on {0x01} + k further sessions (k=2 quick, ids (2,3) and (3,0x40); k=3 thorough), "
+    "ECU models = all directed session-transition graphs on {0x01} + k further sessions (k=2 quick, ids (2,3) and (3,0x40); k=3 thorough: all 32768 graphs at depth 3, every 4th at depths 1/2/4), "
     "self-loop 1->1 fixed, x depth x skip subsets x thorough on/off x reset on/off x refusal flavour {0x12, 0x7E, 0x22} for absent edges; "
     "each configuration is one complete run of the real scanner (127 probes per visited stack) under virtual time. states = distinct "
     "(graph, config, scan result, exit code) tuples; transitions = requests handled by the model ECU"
@@ -250,19 +250,29 @@ def items(tier: str, seed: int) -> list[Any]:
                     out.append((nodes, e, 0x12, 3, (2,), False, False))
                     out.append((nodes, e, 0x7E, 5, (3,), True, True))
     else:
+        flavours = (0x12, 0x7E, 0x22)
         for nodes in ((1, 2, 3), (1, 3, 0x40)):
-            for g in graphs(nodes):
+            skips = ((), (nodes[1],), (nodes[2],), nodes[1:])
+            for gi, g in enumerate(graphs(nodes)):
                 e = tuple(sorted(g))
-                for depth, fl, skip, th, rs in itertools.product((1, 2, 3, 5), (0x12, 0x7E, 0x22), ((), (nodes[1],), (nodes[2],), nodes[1:]), (False, True), (False, True)):
-                    out.append((nodes, e, fl, depth, skip, th, rs))
+                if gi % 8 == 0:  # full configuration product on every 8th graph
+                    for depth, fl, skip, th, rs in itertools.product((1, 2, 3, 5), flavours, skips, (False, True), (False, True)):
+                        out.append((nodes, e, fl, depth, skip, th, rs))
+                else:  # depth x thorough x reset in full, flavour and skip rotate with the graph
+                    for k, (depth, th, rs) in enumerate(itertools.product((1, 2, 3, 5), (False, True), (False, True))):
+                        out.append((nodes, e, flavours[(gi + k) % 3], depth, skips[(gi // 3 + k) % 4], th, rs))
+                out.append((nodes, e, 0x12, 3, (), False, True, True))
         nodes4 = (1, 2, 3, 0x40)
-        for g in graphs(nodes4):
+        for gi, g in enumerate(graphs(nodes4)):
             e = tuple(sorted(g))
-            for depth in (1, 2, 3, 4):
-                out.append((nodes4, e, 0x12, depth, (), False, False))
-            if len(e) % 7 == 0:
+            out.append((nodes4, e, 0x12, 3, (), False, False))
+            if gi % 4 == 0:
+                for depth in (1, 2, 4):
+                    out.append((nodes4, e, 0x12, depth, (), False, False))
+            if gi % 16 == 5:
+                out.append((nodes4, e, 0x7E, 3, (3,), False, True))
+            if gi % 64 == 7:
                 out.append((nodes4, e, 0x12, 4, (), False, True, True))
-            out.append((nodes4, e, 0x7E, 3, (3,), False, True))
     return out
 
 
